@@ -86,6 +86,13 @@ Step(ev) ==
   [] ev.a = "multikey" ->      \* node level: commands naming several keys mean the per-key commands, on every node
      /\ Skip
      /\ LET v == MultiKeyVerdict(ev) IN IF v # "ok" THEN Verdict(v) ELSE TRUE
+  [] ev.a = "cluster" ->       \* node level, updates on the real gossip queue and through JSON: Converged after full delivery
+     /\ Skip
+     /\ (IF \E i \in DOMAIN ev.views : ev.views[i].reads # ev.views[1].reads
+         THEN Verdict("nodes of a cluster answer reads differently although every update was delivered (gossip queue, wire format or routing on receipt)")
+         ELSE IF \E i \in DOMAIN ev.views : ev.views[i].rs # ev.views[1].rs
+         THEN Verdict("nodes of a cluster hold different replication states although every update was delivered")
+         ELSE TRUE)
   [] ev.a = "ae" ->
      IF "skipped" \in DOMAIN ev THEN Skip
      ELSE IF IsNone(rs[ev.from]) THEN Skip /\ Verdict("anti-entropy from a node the specification holds empty")
